@@ -8,14 +8,12 @@ from .core import AnchorError, ModelError, norm
 
 
 def walk_no_nested_funcs(node):
-    """ast.walk that does not descend into nested function/class definitions."""
-    todo = list(ast.iter_child_nodes(node))
-    while todo:
-        n = todo.pop()
+    """Pre-order (source order) walk that does not descend into nested function/class definitions."""
+    for n in ast.iter_child_nodes(node):
         yield n
         if isinstance(n, (ast.FunctionDef, ast.AsyncFunctionDef, ast.ClassDef, ast.Lambda)):
             continue
-        todo.extend(ast.iter_child_nodes(n))
+        yield from walk_no_nested_funcs(n)
 
 
 def body_no_doc(fdef):
